@@ -1,4 +1,5 @@
 import TarpcModel.Lemmas.C15Json
+import TarpcModel.Lemmas.C15JsonOptional
 import TarpcModel.Lemmas.C15Bincode
 /-!
 # C15 (value level, JSON) — shipped transports deliver messages intact
@@ -116,6 +117,66 @@ theorem C15_json_body_string : BodyCodec encStrBody decStrBody (fun _ => True) :
 theorem C15_json_roundtrip_client (m : ClientMessage String) (hm : m.Valid (fun _ => True)) :
     decodeJson (encodeJson m) = some m :=
   C15_json_roundtrip_client_generic C15_json_body_string m hm
+
+/-! ## Peers that omit optional members, order members differently, or add whitespace
+
+These are the documents the `dec-must` ops of family `c15json` feed to the real reader (monitor rule
+"a well-formed message a peer may send was not understood"). -/
+
+/-- **C15 (optional members): a cancellation without trace context is understood.**  For every request id,
+the document `{"Cancel":{"request_id":<id>}}` — alone or surrounded by insignificant whitespace — is read as
+the cancellation of `id` with `trace::Context::default()`. -/
+theorem C15_json_cancel_without_trace_context (id : Nat) (hid : id < 2 ^ 64) (ws₁ ws₂ : Bytes)
+    (h₁ : allWs ws₁) (h₂ : allWs ws₂) :
+    decodeJson (ws₁ ++ render (.obj [("Cancel", .obj [("request_id", .num id)])]) ++ ws₂)
+      = some (.cancel defaultTrace id) := by
+  have hp := parseDoc_ws (.obj [("Cancel", .obj [("request_id", .num id)])]) ws₁ ws₂ h₁ h₂
+  simp only [List.append_assoc] at hp
+  simp [decodeJson, decodeClientMessage, hp, clientMessageFromJson, cancelFromJson, req, opt, lookupAll,
+    mkCancel, uintFromJson, hid]
+
+/-- **C15 (optional members): a request without deadline gets the documented default.**  For every trace
+context, id and body, a request whose context has no `deadline` member is read as that request with the
+10-second default deadline. -/
+theorem C15_json_request_without_deadline (t : TraceContext) (ht : t.Valid) (id : Nat) (hid : id < 2 ^ 64)
+    (body : String) (ws₁ ws₂ : Bytes) (h₁ : allWs ws₁) (h₂ : allWs ws₂) :
+    decodeJson (ws₁ ++ render (.obj [("Request", .obj [("context", .obj [("trace_context", traceToJson t)]),
+        ("id", .num id), ("message", .str body)])]) ++ ws₂)
+      = some (.request { context := { deadline := defaultDeadline, trace := t }, id := id, message := body }) := by
+  have hp := parseDoc_ws (.obj [("Request", .obj [("context", .obj [("trace_context", traceToJson t)]),
+        ("id", .num id), ("message", .str body)])]) ws₁ ws₂ h₁ h₂
+  simp only [List.append_assoc] at hp
+  simp [decodeJson, decodeClientMessage, hp, clientMessageFromJson, requestFromJson, contextFromJson, req, opt,
+    lookupAll, mkRequest, mkContext, uintFromJson, hid, trace_roundtrip t ht, decStrBody, strFromJson]
+
+/-- **C15 (member order).**  A peer may write the members of the message structs in any order: every
+permutation of a cancellation's members, and every permutation of a request's members together with every
+permutation (and optional omission of `deadline`, covered above) of its context's members, is read as the
+same message. -/
+theorem C15_json_member_order (m : ClientMessage String) (hm : m.Valid (fun _ => True)) :
+    (∀ t id kvs, m = .cancel t id →
+      kvs.Perm [("trace_context", traceToJson t), ("request_id", .num id)] →
+      decodeJson (render (.obj [("Cancel", .obj kvs)])) = some m) ∧
+    (∀ r kvs ckvs, m = .request r →
+      ckvs.Perm [("deadline", durationToJson r.context.deadline), ("trace_context", traceToJson r.context.trace)] →
+      kvs.Perm [("context", .obj ckvs), ("id", .num r.id), ("message", .str r.message)] →
+      decodeJson (render (.obj [("Request", .obj kvs)])) = some m) := by
+  constructor
+  · rintro t id kvs rfl hk
+    simp only [decodeJson, decodeClientMessage, parseDoc_render, Option.bind_some, clientMessageFromJson,
+      cancelFromJson]
+    rw [opt_perm _ hk, req_perm _ hk]
+    simp [req, opt, lookupAll, mkCancel, trace_roundtrip _ hm.1, uintFromJson, hm.2]
+  · rintro r kvs ckvs rfl hc hk
+    obtain ⟨h1, h2, _⟩ := hm
+    simp only [decodeJson, decodeClientMessage, parseDoc_render, Option.bind_some, clientMessageFromJson,
+      requestFromJson]
+    rw [req_perm _ hk, req_perm _ hk, req_perm _ hk]
+    have hctx : contextFromJson (.obj ckvs) = some r.context := by
+      simp only [contextFromJson]
+      rw [opt_perm _ hc, req_perm _ hc]
+      simp [req, opt, lookupAll, mkContext, duration_roundtrip _ h1.1, trace_roundtrip _ h1.2]
+    simp [req, lookupAll, mkRequest, hctx, uintFromJson, h2, decStrBody, strFromJson]
 
 /-! ## Error kinds -/
 
